@@ -229,8 +229,11 @@ def one_shot(ck, P):
         okc = False
         for bi, si, lhs, rv, s in u2.assignments():
             e = mir.strip_casts(u2.rvalue_expr(rv))
-            if e[0] == "bin" and e[1].startswith("Add") and mir.mentions_field(e, "avail_in") and "len" in atoms.names_in(e, u2):
-                okc = True
+            if e[0] == "bin" and e[1].startswith("Add") and mir.mentions_field(e, "avail_in"):
+                # the other operand is the running count of input not yet handed to the stream: a working local (whatever its name)
+                others = [mir.strip_casts(x) for x in (e[2], e[3]) if not mir.mentions_field(x, "avail_in")]
+                if "len" in atoms.names_in(e, u2) or any(isinstance(o, tuple) and o and o[0] in ("v", "p") for o in others):
+                    okc = True
         ck.decide(okc, R, "uncompress2:rest", "unconsumed = len + avail_in", "uncompress2 no longer reports len + avail_in", where(u2))
         # BufError && left + avail_out != 0 => DataError
         okb = False
